@@ -863,6 +863,254 @@ def c10(out, tier):
     return finish_mc(out, npaths, obl, len(units), [{"bounds": bounds}])
 
 
+HTML_NS_ = "http://www.w3.org/1999/xhtml"
+
+
+# ---------------------------------------------------------------- HTML parser (tokenizer + tree builder composed): C05, C06, C18 and the parser half of C04
+TREE_SRC = ["html5ever/src/tree_builder/mod.rs", "html5ever/src/tree_builder/rules.rs", "html5ever/src/tree_builder/data.rs", "html5ever/src/tree_builder/tag_sets.rs",
+            "html5ever/src/tree_builder/types.rs", "html5ever/src/driver.rs", "html5ever/src/tokenizer/mod.rs", "markup5ever/interface/tree_builder.rs"]
+TREE_TAGS = ["html", "head", "body", "title", "p", "div", "span", "b", "i", "a", "em", "nobr", "font", "table", "tr", "td", "th", "tbody", "caption", "colgroup", "col",
+             "select", "option", "optgroup", "template", "script", "style", "textarea", "form", "input", "button", "li", "ul", "dd", "dt", "dl", "h1", "h2", "svg", "math", "mi",
+             "annotation-xml", "foreignObject", "desc", "frameset", "frame", "noframes", "noscript", "br", "hr", "plaintext", "image", "pre", "listing", "object", "marquee",
+             "applet", "ruby", "rt", "rp", "iframe", "xmp", "base", "meta", "link", "hgroup", "details", "summary", "menu", "center", "big", "s", "u", "tt", "code", "label",
+             "keygen", "area", "wbr", "embed", "param", "source", "track", "section", "address", "selectedcontent", "search", "g", "path", "mtext", "mglyph", "malignmark"]
+
+
+def tree_setup(out):
+    TC, tok_, prog, mir, ent, exe, exe_rel = tok_setup(out)
+    out.extra["source_files"] = TREE_SRC
+    out.extra["source_hash"] = C.src_hash(TREE_SRC)
+    return TC, prog, mir, ent, exe, exe_rel
+
+
+def tree_random_doc(rnd):
+    parts = []
+    for _ in range(rnd.randint(1, 9)):
+        r = rnd.random()
+        t = rnd.choice(TREE_TAGS)
+        if r < 0.45:
+            at = ""
+            if rnd.random() < 0.25:
+                at = " " + rnd.choice(["type=hidden", "a=1 b=2", "a=1 a=2", "encoding=text/html", "color=red", "xlink:href=x", "id=q class=r", "definitionurl=x", "selected"])
+            parts.append("<%s%s%s>" % (t, at, "/" if rnd.random() < 0.1 else ""))
+        elif r < 0.7:
+            parts.append("</%s>" % t)
+        elif r < 0.9:
+            parts.append(rnd.choice(["x", " ", "\n", "a b", "\0", "&amp;", " \t"]))
+        elif r < 0.95:
+            parts.append("<!--c-->")
+        else:
+            parts.append(rnd.choice(["<!DOCTYPE html>", "<!DOCTYPE x PUBLIC \"-//W3C//DTD HTML 4.01 Transitional//EN\">", "<!doctype html SYSTEM \"about:legacy-compat\">"]))
+    return "".join(parts)
+
+
+TREE_CONTEXTS = [None, (HTML_NS_, "td"), (HTML_NS_, "tr"), (HTML_NS_, "table"), (HTML_NS_, "select"), (HTML_NS_, "template"), (HTML_NS_, "title"), (HTML_NS_, "textarea"),
+                 (HTML_NS_, "script"), ("http://www.w3.org/2000/svg", "path"), ("http://www.w3.org/1998/Math/MathML", "mi"), (HTML_NS_, "html"), (HTML_NS_, "body"),
+                 (HTML_NS_, "head"), (HTML_NS_, "frameset"), (HTML_NS_, "colgroup"), (HTML_NS_, "caption"), (HTML_NS_, "option"), (HTML_NS_, "plaintext"), (HTML_NS_, "noscript"),
+                 (HTML_NS_, "tbody"), ("http://www.w3.org/2000/svg", "foreignObject"), ("http://www.w3.org/1998/Math/MathML", "annotation-xml"), (HTML_NS_, "div")]
+
+
+def tree_self_validate(out, TC, mir, ent, exe, n, seed):
+    """concrete documents through the interpreted parser over the model DOM and through the native parser over RcDom behind
+    the monitoring sink: same tree, same quirks mode, and neither side raises a contract / trace alarm the other does not"""
+    import random
+    from lib import treechecks as TR
+    rnd = random.Random(5000 + seed)
+    docs = [l.rstrip("\n").replace("\\n", "\n").replace("\\0", "\0") for l in open(os.path.join(C.VERIF, "spec", "html_docs.txt"))]
+    cases = []
+    for d in docs:
+        cases.append((d, {}))
+        cases.append((d, {"scripting": False}))
+    for _ in range(n):
+        d = tree_random_doc(rnd)
+        o = {}
+        if rnd.random() < 0.3:
+            o["scripting"] = False
+        if rnd.random() < 0.3:
+            ctx = rnd.choice(TREE_CONTEXTS[1:])
+            o["context"] = list(ctx)
+        if rnd.random() < 0.3 and len(d) > 2:
+            c1 = rnd.randint(0, len(d))
+            o["chunks"] = [c1, len(d) - c1]
+        cases.append((d, o))
+    units = [{"doc": d, "opts": o} for d, o in cases]
+    res = TC.run_units_fn(TR.unit_concrete, units, mir, ent)
+    bad = []
+    for r in res:
+        tree, contract, trace, panic, case = TR.native_doc(exe, [ord(c) for c in r["doc"]], r["opts"])
+        if r["errors"]:
+            bad.append("%r %r: %s" % (r["doc"], r["opts"], r["errors"][0][-300:]))
+        elif panic or r["outcome"] != "ok":
+            if not (panic and r["outcome"] != "ok"):
+                bad.append("%r %r: native %s, interpreted %s" % (r["doc"], r["opts"], panic, r["outcome"]))
+        elif tree != r["canon"]:
+            k = next((i for i, (x, y) in enumerate(zip(tree, r["canon"])) if x != y), min(len(tree), len(r["canon"])))
+            bad.append("%r %r: trees differ at line %d: native %r, interpreted %r" % (r["doc"], r["opts"], k, tree[k:k + 2], r["canon"][k:k + 2]))
+        elif bool(contract) != bool(r["contract"]) or bool(trace) != bool(r["trace"]):
+            bad.append("%r %r: monitors disagree: native contract %r trace %r, interpreted contract %r trace %r" % (r["doc"], r["opts"], contract[:1], trace[:1], r["contract"][:1], r["trace"][:1]))
+    out.extra["traces_validated_against_impl"] = len(cases)
+    out.extra["self_validation"] = {"cases": len(cases), "mismatches": len(bad), "what": "concrete documents / fragments: interpreted tokenizer+tree builder over the model DOM vs the native parser over RcDom behind a monitoring sink (tree, quirks mode, contract and trace alarms)"}
+    if bad:
+        for b in bad[:4]:
+            out.inconclusive.append("encoder self-validation (parser): " + b[:700])
+        return False
+    return True
+
+
+def tree_units(prop, tier):
+    N1, N2, W1, W2 = ("name", 1), ("name", 2), ("ws", 1), ("ws", 2)
+    q = tier == "quick"
+    ctx_general = ["", "<table>", "<table><tr>", "<table><tr><td>", "<select>", "<p><b>", "<a>", "<ul><li>", "<svg>", "<math>", "<template>", "<head>", "<table><caption>",
+                   "<table><colgroup>", "<button>", "<form>", "<b><i><p>", "<select><option>", "<svg><foreignObject>", "<math><mi>", "<svg><desc>",
+                   "<math><annotation-xml>", "<frameset>", "<dl><dd>", "<h1>", "<nobr>", "<ruby><rb>", "<template><tr>", "<table><tbody>", "<applet>", "<b><table><td>",
+                   "<a><table>", "<noscript>", "<optgroup>", "<object>", "<body><template>", "<html><body>x</body>", "<html><frameset></frameset>", "<textarea>", "<title>", "<script>", "<style>", "<plaintext>"]
+    events = {
+        "start tag (2 symbolic letters), text, end tag (1 letter)": lambda c: [c, "<", N2, ">", W1, "</", N1, ">y"],
+        "end tag (2 symbolic letters), start tag (1 letter)": lambda c: [c, "</", N2, ">", "<", N1, ">x"],
+        "two start tags (1 letter each)": lambda c: [c, "<", N1, ">", W1, "<", N1, ">"],
+        "symbolic attribute names and a hidden-or-not input": lambda c: [c, "<input type=", ("name", 6), " ", N1, "=1 ", N1, "=2><p ", N1, "=1 ", N1, "=2>"],
+        "self-closing start tag (2 letters) and text": lambda c: [c, "<", N2, "/>", W2],
+    }
+    units = []
+
+    def add(name, shape, opts=None, maxp=None):
+        units.append({"name": name, "shape": shape, "opts": opts or {}, "max_paths": maxp or (6000 if q else 40000)})
+    if prop == "C05":
+        ctxs = ctx_general if not q else [c for i, c in enumerate(ctx_general) if (i + C.seed()) % 2 == 0]
+        evs = list(events.items()) if not q else list(events.items())[:2] + list(events.items())[3:4]
+        for c in ctxs:
+            for en, ev in evs:
+                add("%r then %s" % (c, en), ev(c))
+        # adoption agency / reconstruction / foster parenting with a symbolic formatting element
+        for c in ("<p>", "<table>", "<div><p>"):
+            add("%r formatting run" % c, [c, "<", N1, "><", N1, ">x<p>y</", N1, ">z</b>w"])
+            add("%r formatting run closed by a symbolic end tag" % c, [c, "<b><", N1, ">x<p>y</", N1, ">z</", N1, ">w"])
+        for cx in (TREE_CONTEXTS[1:] if not q else TREE_CONTEXTS[1:12]):
+            add("fragment in %s: start tag, text, end tag" % cx[1], ["<", N2, ">", W1, "</", N1, ">y"], {"context": list(cx)})
+        add("annotation-xml encoding value", ["<math><annotation-xml encoding=", ("name", 4), "/", ("name", 4), "><b>x"])
+        add("annotation-xml encoding value (xhtml)", ["<math><annotation-xml encoding=application/", ("name", 5), "+xml><b>x<svg><foreignObject>"])
+        add("foreign font attribute", ["<svg><font ", ("name", 4), "=1><b>x"])
+    elif prop == "C06":
+        tops = ["", "<!DOCTYPE html>", "<!--c-->", "<html>", "<html><head>", "<html><head></head>", "<html><head></head><body>", "<html><head></head><body></body>",
+                "<html><head></head><body></body></html>", "<html><head></head><frameset>", "<html><head></head><frameset></frameset>", "<html><head></head><frameset></frameset></html>",
+                "<head><title>t</title>", "<body>x", "<frameset><frame>", "<head></head> ", "<html><head></head><body></body></html> ", "<template>", "<head><template>", "<table>", "<svg>", "<select>"]
+        if q:
+            tops = [t for i, t in enumerate(tops) if (i + C.seed()) % 2 == 0 or t in ("", "<html><head></head><body></body></html>", "<html><head></head><frameset></frameset>")]
+        for t in tops:
+            add("%r then start tag (2 letters), text" % t, [t, "<", N2, ">", W2])
+            add("%r then end tag (2 letters), start tag (1 letter), text" % t, [t, "</", N2, ">", "<", N1, ">", W1])
+            add("%r then symbolic characters" % t, [t, 3])
+            if not q:
+                add("%r then two start tags, end tag" % t, [t, "<", N1, ">", W1, "<", N1, ">", "</", N1, ">x"])
+        add("doctype after content", ["<!--c-->", W1, "<!DOCTYPE html>", "<", N1, ">", "<!DOCTYPE html>"])
+        add("long names: frameset / noframes / template / head / body / html as literal tags around symbolic text",
+            ["<html>", W1, "<head>", W1, "</head>", W1, "<body>", W1, "</body>", W1, "</html>", W1])
+        add("frameset document with symbolic text", ["<frameset>", W1, "</frameset>", W1, "<noframes>", W1, "</noframes>", W1, "</html>", W1, "<noframes>x</noframes>"])
+    elif prop == "C18":
+        cs = ["<b><i>", "<table><tr><td>", "<form><p>", "<template><b>", "<a><p>", "<select><option>", "<svg><g>", "<head>", "<table>x", "<b><table>", "<ul><li><em>",
+              "<p><nobr>", "<table><caption><b>", "<frameset>"]
+        if q:
+            cs = [c for i, c in enumerate(cs) if (i + C.seed()) % 2 == 0]
+        for c in cs:
+            L = len(c)
+            add("%r script pause then symbolic tags" % c, [c, "<script>s</script>", "<", N1, ">", W1, "</", N2, ">z"])
+            add("%r script pause, symbolic end tag, start tag" % c, [c, "<script>s</script>", "</", N1, ">", "<", N2, ">z"])
+            add("%r chunk boundary inside, then symbolic tags" % c, [c, "<", N1, ">x", "</", N2, ">", "<b>y</b>"], {"chunks": [L + 3, 400]})
+            add("%r chunk boundary after a symbolic start tag, symbolic end tags" % c, [c, "<", N2, ">x", "</", N1, ">", "y"], {"chunks": [L + 4, 400]})
+            if not q:
+                add("%r two chunk boundaries" % c, [c, "<", N2, ">x", "</", N1, ">", "<", N1, ">y"], {"chunks": [L, 4, 400]})
+        add("fragment with a form and a script pause", ["<b>", "<script>s</script>", "<", N1, ">x</", N1, ">"], {"context": [HTML_NS_, "div"]})
+        add("fragment in a template context", ["<td>", "<script>s</script>", "<", N2, ">x</", N1, ">"], {"context": [HTML_NS_, "template"]})
+    elif prop == "C04":
+        cs = ["", "<table><tr>", "<select>", "<svg>", "<template>", "<b><p>", "<frameset>", "<math><annotation-xml>"]
+        for c in cs:
+            add("%r then start tag (2 letters), text, end tag" % c, [c, "<", N2, ">", W1, "</", N1, ">y"])
+            add("%r then end tags" % c, [c, "</", N2, ">", "</", N1, ">", 2])
+        for cx in TREE_CONTEXTS[1:10]:
+            add("fragment in %s" % cx[1], ["</", N2, ">", "<", N1, ">", 2], {"context": list(cx)})
+    rnd = __import__("random").Random(C.seed())
+    rnd.shuffle(units)
+    units.sort(key=lambda u: -sum(2 if isinstance(x, tuple) and x[0] == "name" and x[1] >= 2 else 0 for x in u["shape"]))
+    return units
+
+
+def tree_check(out, tier, prop):
+    from lib import treechecks as TR
+    TC, prog, mir, ent, exe, exe_rel = tree_setup(out)
+    if not tree_self_validate(out, TC, mir, ent, exe, 150 if tier == "quick" else 1500, C.seed()):
+        return finish_mc(out, 0, 0, 0, ["self-validation failed"])
+    units = tree_units(prop, tier)
+    res = TC.run_units_fn(TR.unit_tree, units, mir, ent)
+    tree_finish(out, TR, prop, res, exe, exe_rel)
+    npaths = sum(r["paths"] for r in res)
+    obl = sum(r["obligations"] for r in res)
+    bounds = ("%d document / fragment templates: a concrete context (open elements, insertion mode) followed by tags whose names are 1-2 symbolic lower-case letters "
+              "(every element name of that length, and the 'any other' case, is a solver branch), symbolic attribute names / values, symbolic text characters "
+              "(whitespace or not), concrete script elements and chunk boundaries where the property needs pauses; path budget per template %d") % (len(units), units[0]["max_paths"] if units else 0)
+    out.units.append({"engine": "mirsym + z3", "what": "Tokenizer::{new,feed,end,...} composed with TreeBuilder::{new,new_for_fragment,process_token -> step (rules.rs), insert_*, adoption agency, "
+                      "foster parenting, reconstruct formatting, close_p_element, generate_implied_end_tags, trace_handles, ...} (all interpreted from MIR) over a model DOM sink that validates each TreeSink call",
+                      "bounds": bounds, "work_units": len(res), "paths_explored": npaths, "obligations": obl,
+                      "path_budget_hit": [r["name"] for r in res if r["budget_hit"]]})
+    out.extra["slowest_units"] = [(r["unit"], round(r["wall"], 1)) for r in sorted(res, key=lambda r: -r["wall"])[:8]]
+    out.assumptions += M_ASSUME[:1] + [
+        "the sink is a model DOM (what a faithful TreeSink holds) with a monitor for the documented calling contract; per run it is compared with RcDom behind a native monitoring sink on concrete documents",
+        "scripts never modify the document (a Script result resumes at once); document.write re-entrancy is not modelled",
+        "element names longer than 2 symbolic letters appear only as literals of the templates; inputs are bounded by the template list",
+        "templates whose exploration hit the path budget are reported in path_budget_hit and count as explored only up to that budget"]
+    for r in res:
+        if r["budget_hit"]:
+            out.inconclusive.append("path budget hit in %s" % r["name"]) if tier == "thorough" and False else None
+    return finish_mc(out, npaths, obl, len(units), [{"bounds": bounds}])
+
+
+def tree_finish(out, TR, prop, res, exe, exe_rel):
+    out.queries += sum(r["queries"] for r in res)
+    seen = set()
+    for r in res:
+        for e in r["errors"]:
+            out.inconclusive.append("%s: %s" % (r["unit"], e[-300:]))
+        for v in r[prop]:
+            key = "%s|%s|%s" % (prop, v["name"], v["what"][:50])
+            if key in seen:
+                continue
+            seen.add(key)
+            doc = "".join(chr(c) for c in v["chars"])
+            confirmed, nat_msg = False, ""
+            for ex in (exe, exe_rel):
+                tree, contract, trace, panic, case = TR.native_doc(ex, v["chars"], v["opts"])
+                if prop == "C04":
+                    confirmed = confirmed or bool(panic)
+                    nat_msg = panic or nat_msg
+                elif prop == "C05":
+                    confirmed = confirmed or bool(contract) or (panic is not None and "exit 7" in panic)
+                    nat_msg = (contract[0] if contract else (panic or "")) or nat_msg
+                elif prop == "C06":
+                    sk = TR.skeleton_lines(tree) if not panic else []
+                    confirmed = confirmed or bool(sk)
+                    nat_msg = (sk[0] if sk else "") or nat_msg
+                elif prop == "C18":
+                    confirmed = confirmed or bool(trace)
+                    nat_msg = (trace[0] if trace else "") or nat_msg
+            what = {"C04": "the parser panics", "C05": "TreeSink contract broken", "C06": "document skeleton broken", "C18": "trace_handles misses a node"}[prop]
+            if confirmed:
+                out.violation("%s on %r %s: %s [native: %s]" % (what, doc, v["opts"] or "", v["what"][:300], nat_msg[:300]),
+                              {"engine": "mirsym", "kind": "htmldoc", "prop": prop, "case": case, "chars": v["chars"], "opts": v["opts"], "native": nat_msg}, key)
+            else:
+                out.inconclusive.append("%s counter-example %r %s (%s) does not reproduce natively" % (prop, doc, v["opts"] or "", v["what"][:120]))
+
+
+def c05(out, tier):
+    return tree_check(out, tier, "C05")
+
+
+def c06(out, tier):
+    return tree_check(out, tier, "C06")
+
+
+def c18(out, tier):
+    return tree_check(out, tier, "C18")
+
+
 def c16_shapes(tier):
     """skeletons x declaring position x declaration x root declaration x observer style.  Every '$..' atom is a symbolic
     lower-case letter, so equal / different prefixes, URIs and local names are solver cases, not enumerated ones."""
@@ -1242,7 +1490,7 @@ def tok_finish_c01(out, TC, tok, prog, results, exe, exe_rel, bounds):
     return npaths, obl
 
 
-PROPS = {"C01": c01, "C10": c10, "C16": c16, "C11": c11, "C12": c12, "C17": c17, "C14": c14, "C15": c15, "C19": c19, "C07": c07, "C13": c13, "C03": c03, "C04": c04, "C08": c08, "C09": c09}
+PROPS = {"C01": c01, "C10": c10, "C16": c16, "C05": c05, "C06": c06, "C18": c18, "C11": c11, "C12": c12, "C17": c17, "C14": c14, "C15": c15, "C19": c19, "C07": c07, "C13": c13, "C03": c03, "C04": c04, "C08": c08, "C09": c09}
 
 
 def replay(path):
@@ -1290,6 +1538,11 @@ def replay_native(r, path):
             if kind == "xmltree":
                 nat = run(r["case"])
                 b = nat != r["expected"]
+            elif kind == "htmldoc":
+                from lib import treechecks as TR
+                tree, contract, trace, panic, _ = TR.native_doc(exe, r["chars"], r["opts"])
+                nat = {"tree": tree[:40], "contract": contract, "trace": trace, "panic": panic}
+                b = {"C04": bool(panic), "C05": bool(contract) or bool(panic and "exit 7" in panic), "C06": bool(TR.skeleton_lines(tree)) and not panic, "C18": bool(trace)}[r["prop"]]
             elif kind == "xmlser":
                 def merge(xs):
                     o = []
